@@ -47,6 +47,7 @@ class World:
         self.mt = None  # MTSched while a multi-thread block is active
         self.thread_choice_points = 0
         self.thread_switches = 0
+        self.abandoned = []  # worker threads whose caller was interrupted while waiting
 
     def note(self, i, n):
         self._trace.update(b"%.6f,%d,%d;" % (self.now, i, n))
@@ -138,6 +139,20 @@ class _SimFuture:
         return self._r
 
 
+CURRENT_JOB = contextvars.ContextVar("sim_pool_job", default=None)
+
+
+def interrupt_waiting_caller():
+    """Called on a worker thread of the simulated pool: wake the caller that waits for this
+    worker as if it had been interrupted.  Returns False when there is no such caller."""
+    job = CURRENT_JOB.get()
+    if job is None or job["interrupted"]:
+        return False
+    job["interrupted"] = True
+    job["done"].release()
+    return True
+
+
 class SimThreadPool:
     """Stands in for concurrent.futures.ThreadPoolExecutor inside make_it_sync: runs the job on
     a real thread, but the submitting thread waits for it at once (baton passing)."""
@@ -162,6 +177,12 @@ class SimThreadPool:
         go.acquire()
         done.acquire()
 
+        # fault "caller interrupted while waiting": code running on the worker (a fake executor)
+        # may wake the caller early through this record; the caller then leaves with
+        # KeyboardInterrupt - as if SIGINT had reached it inside future.result() - and the
+        # worker goes on with nobody waiting for its answer
+        job = {"done": done, "interrupted": False}
+
         def run():
             go.acquire()
             normal = sys.getrecursionlimit()
@@ -174,14 +195,20 @@ class SimThreadPool:
             finally:
                 if extra:
                     sys.setrecursionlimit(normal)
-                done.release()
+                if not job["interrupted"]:
+                    done.release()
 
         # the worker inherits the caller's contextvars (the real pool does not; func_adl uses
         # none): this is how the simulator attributes an executor start to the call behind it
         ctx = contextvars.copy_context()
+        ctx.run(CURRENT_JOB.set, job)
         t = threading.Thread(target=ctx.run, args=(run,), name="sim-make-sync")
         t.start()
         go.release(); done.acquire()  # noqa: E702  (no Python frame is pushed in between)
+        if job["interrupted"]:
+            # the simulator joins the worker once the caller has left value()
+            w.abandoned.append(t)
+            raise KeyboardInterrupt()
         t.join()
         return f
 
